@@ -11,7 +11,7 @@ P = {
  "C04": ("proof", "the view mechanism and the whole-tensor writes are proved: Dense.Slice returns a fresh tensor whose storage is the window [start,end) of the source's storage (same array, shifted offset, scaled by the element size) with the access pattern computed by AP.S, the source untouched and the mask windowed alike; array.zeroIter/memsetIter write exactly the offsets their iterator yields and leave every other storage position unchanged (unbounded, loop invariants with the ghost iterator sequence), array.Memset fills all; Dense.Zero/Memset on a view write only positions of the view's offset sequence; Clone/SafeT results share no metadata with the source (C19 contracts). The link FlatIterator = offset sequence of its access pattern, the byte-level fill array.Zero, copyDense and storage allocation are trusted contracts; element copies by Clone/Materialize are not under contract", "DESIGN.md 5 C04"),
  "C05": ("proof", "FlatIterator (Next/NextValidity/NextValid/NextInvalid/Reset/Done/SetReverse/SetForward and the specialised next routines) and FlatMaskedIterator proved against a ghost visit-order specification: each call yields the offset of the next coordinate in row-major order (reverse: descending), exactly size elements are yielded before the noop error, Reset restores the initial state", "DESIGN.md 5 C05"),
  "C06": ("proof", "every generated arithmetic and min/max kernel (1224 functions: vector-vector, vector-scalar, scalar-vector, incr, iterator, iterator-incr, recv, scalar helpers, and the vecf32/vecf64 bodies they delegate to) is proved to apply the specified operator to the specified operands at the specified index, with frame; iterator kernels via one-step (loop step) contracts", "DESIGN.md 5 C06"),
- "C07": ("other", "partial: the decisions that make the option modes safe are proved - operand preparation (prepDataVV/VS/SV) selects the flat kernels only when every tensor involved, including the reuse/increment destination, is contiguous, untransposed, unmasked and in the same data order, and otherwise hands each kernel the iterator of its own tensor at position 0; reuseCheckShape copies the expected shape and leaves no pooled slice referenced; the incr/recv kernels add into / write only the destination (C06 schemas); Float64Engine.FMA pairs data and iterators like the default engine. The mode switch inside the generated StdEng methods and option parsing (closures) are not under contract", "DESIGN.md 5 C07"),
+ "C07": ("other", "partial: the generated engine methods StdEng.{Add,Sub,Mul,Div,Pow,Mod} and the 14 unary methods are proved, for every option mode and both the flat and the iterator path, to return a (unsafe), the reuse/increment tensor (reuse, incr) or a fresh tensor with fresh storage (safe), to leave operand b unchanged in every mode and operand a unchanged except in unsafe mode, and to hand every kernel the data and the iterator of the right tensor, rewound to position 0; the dispatch methods E.*Incr/E.*Recv write only their destination (a known finding: the single-element path of E.*Incr overwrites a); operand preparation selects flat kernels only for flat same-order operands including the destination; reuseCheckShape copies the expected shape. Option parsing is trusted (the selected reuse tensor and flags are uninterpreted functions of the option list); delivered values per mode, comparison and *Scalar methods and linear algebra are not under contract", "DESIGN.md 0.4 and 5 C07"),
  "C08": ("proof", "Sum, Prod, Reduce (left folds) and Argmax/Argmin (first index of the extreme, strict comparison) kernels proved against recursive fold specifications for all lengths", "DESIGN.md 5 C08"),
  "C10": ("other", "partial: the shape calculators Shape.Concat and Shape.Repeat are proved (result shape per axis, operands unchanged, refusal of misfitting operands and bad axes, repeat counts copied not retained); the element-moving code (stacking, concatenation by slice-and-assign, repeat kernels) is engine glue over reflection and iterators and is not under contract", "DESIGN.md 5 C10"),
  "C11": ("proof", "every generated comparison kernel (1044 functions: bool and same-type results, vv/sv/vs, iterator variants) proved to deliver the truth value of Go's comparison of the specified operands in operand order, operands unchanged", "DESIGN.md 5 C11"),
